@@ -156,7 +156,7 @@ impl Property for Prop {
         "C07"
     }
     fn rule(&self) -> &'static str {
-        "merges: for each shape (fragments per PDU: 2x2, 2x3, 3x3, 2x4, 2x5, 3x4, 4x4, 5x5, 3x3x3, 2x3x4, 2x2x2x2, 2x2x3; thorough adds 4x4x4, 3x3x3x3, 5x5x2x2, 4x5x5, 2x2x2x3) trains (one in three with header extensions, which belong to the delivered metadata) are built by the real encapsulator on fragment ids distinct modulo the slot count (each shape on memories of 4, 3, 6 and 5 slots) and EVERY order-preserving merge is decapsulated on a fresh receiver (key = shape x memory size x 8 parts of the merge index space); the result stream restricted to each train must equal that train decapsulated alone, with exactly one delivery per PDU at its own end fragment. strays: for every merge of the small shapes one stray packet is inserted at EVERY position from {intermediate / end of an unknown id in an empty slot, intermediate / end of an id aliasing an open slot (id +/- slots), complete packet (accepted), complete packet too large for the storage (rejected), padding, a first fragment of an unknown or aliasing id that the receiver refuses (unknown mandatory extension, null label, total length too small: a refused first fragment does not claim the slot), an intermediate / end fragment carrying a train's own id before that train has started, and the non-packet event 'the application provisions storage until the memory reports it is full'}; the packet strays whose rejection must consume exactly the packet are also presented FRAMED (stray and the following train packet in one buffer, walked by consumed lengths). restart: a new first fragment on the same id restarts only that id (one run in three with the free list topped up to full just before the restart; also when the abandoned and the new PDU differ in label mode: one first fragment carries its label, the other re-uses the preceding packet's). sampled: random merges of 4x5 with an aliasing stray on memories of 4..7, 255, 256 slots (ids 0, 255, 64, 1 there) and 100 / 200 slots (ids 64 and 128 apart). reuse-strays: all merges of 2x2, 2x3, 3x3, 2x2x2 where every PDU carries the same label and the re-use-enabled encapsulator is driven in the merge order (substituted first fragments; every second PDU through encap_ext with an optional extension; each PDU must be delivered exactly once), with a stray intermediate / end packet of an unknown or aliasing id at every position; reference = the same stream without the stray; additionally an extra PDU whose damaged end fragment (length mismatch) is rejected at every position. allopen: a PDU in flight on every one of the 256 fragment ids at once (256 / 300 slots; id order, reverse, permuted): each delivered exactly once. scarce: 4 trains of 3 fragments with only 1..3 storage buffers: every PDU whose first fragment was accepted is delivered exactly once. (All receivers are built with max_pdu_frag = length of the longest train.) Evaluations = decap calls; non-trivial = a merge in which at least two trains were really interleaved; fingerprint = hash(shape, merge order, stray)."
+        "merges: for each shape (fragments per PDU: 2x2, 2x3, 3x3, 2x4, 2x5, 3x4, 4x4, 5x5, 3x3x3, 2x3x4, 2x2x2x2, 2x2x3; thorough adds 4x4x4, 3x3x3x3, 5x5x2x2, 4x5x5, 2x2x2x3) trains (one in three with header extensions, which belong to the delivered metadata) are built by the real encapsulator on fragment ids distinct modulo the slot count (each shape on memories of 4, 3, 6 and 5 slots) and EVERY order-preserving merge is decapsulated on a fresh receiver (key = shape x memory size x 8 parts of the merge index space); the result stream restricted to each train must equal that train decapsulated alone, with exactly one delivery per PDU at its own end fragment. strays: for every merge of the small shapes one stray packet is inserted at EVERY position from {intermediate / end of an unknown id in an empty slot, intermediate / end of an id aliasing an open slot (id +/- slots), complete packet (accepted), complete packet too large for the storage (rejected), padding, a first fragment of an unknown or aliasing id that the receiver refuses (unknown mandatory extension, null label, total length too small: a refused first fragment does not claim the slot), an intermediate / end fragment carrying a train's own id before that train has started, and the non-packet event 'the application provisions storage until the memory reports it is full'}; the packet strays whose rejection must consume exactly the packet are also presented FRAMED (stray and the following train packet in one buffer, walked by consumed lengths). restart: a new first fragment on the same id restarts only that id (one run in three with the free list topped up to full just before the restart; also when the abandoned and the new PDU differ in label mode: one first fragment carries its label, the other re-uses the preceding packet's). sampled: random merges of 4x5 with an aliasing stray on memories of 4..7, 255, 256 slots (ids 0, 255, 64, 1 there) and 100 / 200 slots (ids 64 and 128 apart). reuse-strays: all merges of 2x2, 2x3, 3x3, 2x2x2 where every PDU carries the same label and the re-use-enabled encapsulator is driven in the merge order (substituted first fragments; every second PDU through encap_ext with an optional extension; each PDU must be delivered exactly once), with a stray intermediate / end packet of an unknown or aliasing id at every position; reference = the same stream without the stray; additionally an extra PDU whose damaged end fragment (length mismatch) is rejected at every position. reuse two-labels: the same merges again with the odd trains carrying a DIFFERENT label of the same size, after an opening complete packet carrying the first label (so a first fragment substituted by re-use is followed by start packets of the other label before its own end arrives); in both variants an absolute oracle, independent of the code under test, requires every status of a packet of train t to carry t's own protocol type and label and every delivery to be t's own PDU. allopen: a PDU in flight on every one of the 256 fragment ids at once (256 / 300 slots; id order, reverse, permuted): each delivered exactly once. scarce: 4 trains of 3 fragments with only 1..3 storage buffers: every PDU whose first fragment was accepted is delivered exactly once. (All receivers are built with max_pdu_frag = length of the longest train.) Evaluations = decap calls; non-trivial = a merge in which at least two trains were really interleaved; fingerprint = hash(shape, merge order, stray)."
     }
     fn gens(&self, cx: &Cx) -> Vec<Gen> {
         let s = shapes(cx).len() as u64;
@@ -165,7 +165,7 @@ impl Property for Prop {
             Gen { name: "strays", count: 6 * SLOTV * PARTS, exhaustive: true },
             Gen { name: "restart", count: cx.n(2_000, 100_000), exhaustive: false },
             Gen { name: "sampled", count: cx.n(10_000, 1_000_000), exhaustive: false },
-            Gen { name: "reuse-strays", count: 4 * 2 * PARTS, exhaustive: true },
+            Gen { name: "reuse-strays", count: 2 * 4 * 2 * PARTS, exhaustive: true },
             Gen { name: "scarce", count: cx.n(3_000, 300_000), exhaustive: false },
             Gen { name: "allopen", count: 6, exhaustive: true },
         ]
@@ -391,15 +391,30 @@ impl Property for Prop {
                 // merge order, so that substituted first fragments follow the packet that carries the label.
                 // A stray intermediate / end packet of another id must not change anything (the reference is
                 // the same stream without the stray).
-                let shape: Vec<usize> = [vec![2usize, 2], vec![2, 3], vec![3, 3], vec![2, 2, 2]][(key / PARTS / 2) as usize].clone();
+                // keys of the second half ("two labels"): the odd trains carry a DIFFERENT label of the same size and the
+                // stream is opened by a complete packet carrying the first label, so that a first fragment substituted
+                // by re-use is followed by start packets of another label before its own end fragment arrives
+                let two = key / (PARTS * 8) == 1;
+                let shape: Vec<usize> = [vec![2usize, 2], vec![2, 3], vec![3, 3], vec![2, 2, 2]][(key / PARTS / 2 % 4) as usize].clone();
                 let slots = [4usize, 3][((key / PARTS) % 2) as usize];
                 let part = key % PARTS;
                 let mut rng = Rng::derive(cx.seed, fnv(b"reuse-strays"), key / PARTS);
                 let lk = if (key / PARTS) % 2 == 0 { 0 } else { 2 };
                 let label = gen_label(&mut rng, lk);
                 let ll = label_bytes(&label).len();
+                let mut label2 = gen_label(&mut rng, lk);
+                while label_bytes(&label2) == label_bytes(&label) {
+                    label2 = gen_label(&mut rng, lk);
+                }
+                let mut labels: Vec<Label> = (0..shape.len()).map(|t| if two && t % 2 == 1 { label2 } else { label }).collect();
                 let ids: Vec<u8> = (0..shape.len()).map(|i| (i + slots * rng.below(256 / slots)) as u8).collect();
-                let pdus: Vec<Vec<u8>> = shape.iter().map(|nf| { let n = nf * 16 + rng.below(8); rng.bytes(n) }).collect();
+                let mut pdus: Vec<Vec<u8>> = shape.iter().map(|nf| { let n = nf * 16 + rng.below(8); rng.bytes(n) }).collect();
+                if two {
+                    // the opener: index shape.len()
+                    labels.push(label);
+                    let n = 1 + rng.below(20);
+                    pdus.push(rng.bytes(n));
+                }
                 let total: usize = shape.iter().sum();
                 let empty_slot_id = (0..=255u8).find(|i| !ids.iter().any(|u| (*u as usize) % slots == (*i as usize) % slots));
                 let alias = alias_id(ids[0], slots, &ids, part as usize);
@@ -421,6 +436,25 @@ impl Property for Prop {
                     let mut ctxs: Vec<Option<dvb_gse_rust::gse_encap::ContextFrag>> = vec![None; shape.len()];
                     let mut sent = vec![0usize; shape.len()];
                     let mut stream: Vec<(usize, Vec<u8>)> = Vec::new();
+                    if two {
+                        let t = shape.len();
+                        let mut buf = vec![0u8; 200];
+                        match crate::mon::guard(|| enc.encap(&pdus[t], 0, EncapMetadata::new(0x0800 + t as u16, labels[t]), &mut buf)) {
+                            Ok(Ok(st)) => {
+                                let (n, c) = status_parts(&st);
+                                if c.is_some() {
+                                    rep.count("c07.reuse.sender-failed");
+                                    return;
+                                }
+                                buf.truncate(n);
+                                stream.push((t, buf));
+                            }
+                            _ => {
+                                rep.count("c07.reuse.sender-failed");
+                                return;
+                            }
+                        }
+                    }
                     for &t in order {
                         let k = sent[t];
                         sent[t] += 1;
@@ -432,10 +466,10 @@ impl Property for Prop {
                             if t % 2 == 1 {
                                 let b = 7 + ll + 4 + per;
                                 let e = vec![dvb_gse_rust::header_extension::Extension::new(0x0242, &[0xE0 | t as u8, 7]).unwrap()];
-                                crate::mon::guard(|| enc.encap_ext(&pdus[t], ids[t], EncapMetadata::new(0x0800 + t as u16, label), &mut buf[..b], e))
+                                crate::mon::guard(|| enc.encap_ext(&pdus[t], ids[t], EncapMetadata::new(0x0800 + t as u16, labels[t]), &mut buf[..b], e))
                             } else {
                                 let b = 7 + ll + per;
-                                crate::mon::guard(|| enc.encap(&pdus[t], ids[t], EncapMetadata::new(0x0800 + t as u16, label), &mut buf[..b]))
+                                crate::mon::guard(|| enc.encap(&pdus[t], ids[t], EncapMetadata::new(0x0800 + t as u16, labels[t]), &mut buf[..b]))
                             }
                         } else {
                             let c = match ctxs[t] {
@@ -492,15 +526,39 @@ impl Property for Prop {
                         None => return,
                     };
                     let delivered = reference.iter().filter(|o| o.starts_with("C(")).count();
-                    if delivered != shape.len() {
+                    if delivered != shape.len() + two as usize {
                         // all PDUs carry the same label and every re-use first fragment follows a start packet of this very
                         // stream: each PDU must be delivered exactly once, also without any stray
                         rep.violation("C07", "not-exactly-once:re-use-traffic".into(), || format!("shape {:?} ids {:?} label {} merge order {:?} (every second PDU sent through encap_ext): outcomes {:?}", shape, ids, label_str(&label), order, reference), &replay);
                         return;
                     }
+                    // absolute oracle (the reference above is produced by the code under test): every status of a packet of
+                    // train t carries t's own protocol type and label, and the delivery is t's PDU
+                    for (i, (t, _)) in stream.iter().enumerate() {
+                        let o = &reference[i];
+                        let want = if o.starts_with("C(") {
+                            Some(format!("C({},{:#06x},{},{:016x},", pdus[*t].len(), 0x0800 + *t as u16, label_str(&labels[*t]), fnv(&pdus[*t])))
+                        } else if o.starts_with("F(") {
+                            Some(format!("F({:#06x},{},", 0x0800 + *t as u16, label_str(&labels[*t])))
+                        } else {
+                            None
+                        };
+                        if let Some(w) = want {
+                            if !o.starts_with(&w) {
+                                rep.violation("C07", format!("foreign-metadata:re-use-traffic:{}", if two { "two-labels" } else { "one-label" }), || format!("shape {:?} ids {:?} labels {:?} merge order {:?}{}: packet {} (train {}) -> {} but that train's own PDU / protocol type / label give {}...", shape, ids, labels.iter().map(label_str).collect::<Vec<_>>(), order, if two { " after an opening complete packet" } else { "" }, i, t, o, w), &replay);
+                                return;
+                            }
+                        }
+                    }
+                    if two {
+                        rep.count("c07.reuse.two-label-streams");
+                        if stream.iter().any(|(_, p)| p.len() > 2 && p[0] & 0xC0 == 0x80 && p[0] & 0x30 == 0x30) {
+                            rep.count("c07.reuse.two-label-streams-with-substituted-first-fragment");
+                        }
+                    }
                     rep.count("c07.reuse.streams");
                     for (sp, sname) in &strays {
-                        for at in 0..total {
+                        for at in 0..stream.len() {
                             match run(Some((at, sp)), rep) {
                                 Some(o) if o == reference => {
                                     rep.count("c07.reuse.stray-runs");
@@ -879,7 +937,7 @@ impl Property for Prop {
         }
     }
     fn floors(&self, _cx: &Cx, rep: &mut Report) {
-        for k in ["c07.merges", "c07.interleaved", "c07.stray-runs", "c07.restarts", "c07.sampled-ok", "c07.reuse.stray-runs", "c07.scarce-ok", "c07.reuse.bad-end-runs", "c07.restarts-other-label-mode"] {
+        for k in ["c07.merges", "c07.interleaved", "c07.stray-runs", "c07.restarts", "c07.sampled-ok", "c07.reuse.stray-runs", "c07.scarce-ok", "c07.reuse.bad-end-runs", "c07.restarts-other-label-mode", "c07.reuse.two-label-streams-with-substituted-first-fragment"] {
             if rep.get(k) == 0 {
                 rep.floors_missing.push(format!("C07 floor: counter {} is 0", k));
             }
